@@ -105,6 +105,8 @@ type FV struct {
 	locksetOK      int
 	topFrame       *Frame
 	curFrame       *Frame
+	ghostAfterHits map[string]int // ghost_after clause -> number of calls it matched (0 = the clause binds nothing)
+	deferDepths    []int          // frame depths of the deferred functions being run (innermost last)
 	sections       map[string]int // lock field -> critical sections entered by the top function on its receiver
 	serialGroups   map[string]map[string]bool // lock field -> acquisitions of a serializing lock during which sections of it were entered
 	serialAcq      map[string]string          // held-key of a serializing lock -> position of its last acquisition
